@@ -31,6 +31,15 @@ pub const DEPTH_OPS: &[&str] = &[
     "array_insert_deep",
     "delete_by_keypath_deep",
     "get_by_keypath_deep",
+    // byte-level functions that look at the outer container only (or walk with an explicit queue) today
+    "traverse_check_string",
+    "get_by_index_deep",
+    "get_by_name_deep",
+    "object_keys_array_values_each",
+    "concat_deep",
+    "array_distinct_deep",
+    "exists_keys_deep",
+    "inspect_deep",
 ];
 pub const SHAPES: &[&str] = &["arrays", "objects", "alternating"];
 pub const LADDER: &[u64] = &[1, 2, 10, 100, 1_000, 10_000, 100_000, 300_000];
@@ -328,6 +337,50 @@ fn run_depth_op(op: &str, shape: &str, depth: u64) -> String {
                 Some(_) => "completed".into(),
                 None => "error:none".into(),
             }
+        }
+        "traverse_check_string" => {
+            let b = deep_jsonb(shape, depth);
+            let found = jsonb::traverse_check_string(&b, |s| s == b"needle");
+            if found { "error:found_a_string_in_a_document_without_strings".into() } else { "completed".into() }
+        }
+        "get_by_index_deep" => {
+            let b = deep_jsonb(shape, depth);
+            let _ = jsonb::get_by_index(&b, 0);
+            "completed".into()
+        }
+        "get_by_name_deep" => {
+            let b = deep_jsonb(shape, depth);
+            let _ = jsonb::get_by_name(&b, "a", true);
+            "completed".into()
+        }
+        "object_keys_array_values_each" => {
+            let b = deep_jsonb(shape, depth);
+            let _ = jsonb::object_keys(&b);
+            let _ = jsonb::array_values(&b);
+            let _ = jsonb::object_each(&b);
+            "completed".into()
+        }
+        "concat_deep" => {
+            let b = deep_jsonb(shape, depth);
+            let mut out = vec![];
+            res_name(jsonb::concat(&b, &b, &mut out))
+        }
+        "array_distinct_deep" => {
+            let b = deep_jsonb(shape, depth);
+            let mut out = vec![];
+            res_name(jsonb::array_distinct(&b, &mut out))
+        }
+        "exists_keys_deep" => {
+            let b = deep_jsonb(shape, depth);
+            let keys: [&[u8]; 2] = [b"a", b"b"];
+            let _ = jsonb::exists_all_keys(&b, keys.iter().copied());
+            let _ = jsonb::exists_any_keys(&b, keys.iter().copied());
+            "completed".into()
+        }
+        "inspect_deep" => {
+            let b = deep_jsonb(shape, depth);
+            let _ = (jsonb::type_of(&b).is_ok(), jsonb::array_length(&b), jsonb::is_array(&b), jsonb::is_object(&b), jsonb::is_null(&b), jsonb::as_str(&b).is_some(), jsonb::as_number(&b).is_some());
+            "completed".into()
         }
         other => format!("harness:unknown_op:{other}"),
     }
@@ -861,7 +914,7 @@ impl Scenario for Limits {
     }
 
     fn rule(&self) -> String {
-        "One child process per case. Depth cases: operations {parse, drop, encode, decode x2, render x2, compare, path query x4, path parse} x shapes {arrays, objects, alternating} x \
+        "One child process per case. Depth cases: operations {parse, drop, encode, decode x2, render x2, compare, comparable encoding, path query x4, path parse, the index-taking functions and eight further byte-level functions that are shallow or iterative today} x shapes {arrays, objects, alternating} x \
          the depth ladder {1,2,10,100,1e3,1e4,1e5,3e5} x stack budgets {8 MiB, 2 MiB} x builds {dev = unoptimised with overflow checks and debug assertions, checked = optimised with the same checks, shipped = release defaults}, all enumerated, \
          plus seeded log-uniform depths between the rungs with stacks {1,2,4,8 MiB}. Extreme-argument cases: {delete_by_index, array_insert, delete_by_keypath, get_by_keypath, $[i], \
          $[last-i], $[last+i], $[a to b]} x {MIN, MIN+1, -len-1, -len, -1, 0, len-1, len, len+1, MAX-1, MAX} x len {0,1,3} x {JSONB, JSON text} x all three builds, all enumerated, plus seeded i32s. \
